@@ -1044,9 +1044,11 @@ pub fn handle(st: &mut State, line: &str) -> String {
             "SV" => crate::stream::serve(st, &mut t),
             "SVBIG" => crate::stream::serve_big(st, &mut t),
             "SDN" => crate::stream::decode_n_notime(st, &mut t),
+            "SDP" => crate::stream::decode_n_parked(st, &mut t),
             "CL" => crate::client::run(st, &mut t),
             "TLS" => crate::net::tls_cell(st, &mut t),
             "TLSPLAIN" => crate::net::tls_plain(st, &mut t),
+            "NETAGED" => crate::net::aged(st, &mut t),
             "TLSROT" => crate::net::tls_rotate(st, &mut t),
             "TLSHIST" => crate::net::tls_history(st, &mut t),
             "NET" => crate::net::scenario(st, &mut t),
